@@ -42,6 +42,16 @@ TESTS = {
 }
 GROUP_ATTRS = ["query", "status", "system", "count"]
 TRIGGER_TYPES = ["K", "C", "M", "T"]
+# operands of a switch router: "@" + namespace + 0, 1 or 2+ dotted path segments.  The three
+# namespaces the editor shows as a field / result split, and look-alikes that are plain expressions.
+OPERAND_NAMESPACES = ["contact", "fields", "results"]
+OPERAND_NEAR_NAMESPACES = ["input", "contacts", "field", "result", "parent.fields", "child.results", "run.results", "urns", "node"]
+OPERAND_SEGMENTS = ["age", "name", "language", "channel", "groups", "quiz", "x", "urn", "category", "path", "value", "first_name",
+                    "a", "b", "tel", "fields", "results", "contact", "text", "0", "Name", "created_on", "category_localized"]
+OPERAND_EXPRESSIONS = ["@input.text", "@contact.groups", "@(1+1)", "@(urn_parts(contact.urn).scheme)", "@(fields.a.b & results.x.y)",
+                       "@(lower(contact.name))", "@(default(urn_parts(contact.urn).path, \"\"))", "@ contact.name", "contact.name", "@@contact.name"]
+URN_SCHEMES = ["tel", "mailto", "whatsapp", "telegram", "facebook"]
+CONTACT_PROPERTIES_UI = {"name": "Name", "language": "Language", "channel": "Channel"}  # contact properties the editor lists by title
 STRINGS = ["a", "Hello @contact.name", "x y", "é日\U0001F600", "with \"quote\" and \\", "line\nbreak", "0", "False", " "]
 JUNK = [None, True, False, 0, 1, -3, 1.5, "", "s", [], {}, [1, "a", None], {"k": {"n": [True, {}]}}, {"topic": "t", "all_urns": False}]
 
@@ -221,6 +231,28 @@ class Gen:
         self.tick("case." + ("noarg" if not args else typ if typ == "has_group" else "args"))
         return {"uuid": self.uuid(), "type": typ, "arguments": args, "category_uuid": r.choice(cats)["uuid"]}
 
+    def operand(self):
+        """operand of a plain switch router: a path "@ns.seg.seg…" with 0, 1 or 2+ segments in each of
+        the three namespaces the editor knows (and in look-alike namespaces), a urn-scheme lookup,
+        or another expression"""
+        r = self.r
+        c = r.random()
+        if c < 0.2:
+            self.tick("operand.expression")
+            return r.choice(OPERAND_EXPRESSIONS)
+        if c < 0.28:
+            self.tick("operand.urn_scheme_path")
+            return '@(default(urn_parts(urns.%s).path, ""))' % r.choice(URN_SCHEMES)
+        near = c < 0.4
+        ns = r.choice(OPERAND_NEAR_NAMESPACES if near else OPERAND_NAMESPACES)
+        k = r.choice([0, 1, 1, 1, 2, 2, 3])
+        segs = [r.choice(OPERAND_SEGMENTS) for _ in range(k)]
+        if segs and r.random() < 0.4:
+            segs[0] = r.choice(["name", "language", "channel", "groups"])  # the paths the editor treats specially under @contact
+        op = "@" + ns + "".join("." + x for x in segs)
+        self.tick("operand.%s.segments=%s" % ("near_namespace" if near else ns, k if k < 2 else "2+"))
+        return op
+
     def switch_router(self, operand=None, order="ok", exit_order="ok"):
         """returns (router, exits).  order: ok | default_first | default_middle | noresp_not_last;
         exit_order: ok | permuted"""
@@ -260,7 +292,7 @@ class Gen:
             self.tick("router.shared_category")
         rt = {
             "type": "switch",
-            "operand": operand or r.choice(["@input.text", "@contact.groups", "@fields.age", "@results.x", "@(1+1)", "@contact.name"]),
+            "operand": operand or self.operand(),
             "cases": cases,
             "categories": cats,
             "default_category_uuid": default["uuid"],
@@ -344,12 +376,31 @@ class Gen:
             ui = {}
             ids = list(self.node_ids)
             r.shuffle(ids)
+            by_id = {n["uuid"]: n for n in nodes}
             for u in ids:
+                nd = by_id[u]
+                dots = _operand_class(nd)
                 if r.random() < 0.8:
-                    ent = {"position": {"left": r.randint(0, 2000), "top": r.choice([0, 10, 33.5, 1200])}, "type": "execute_actions"}
+                    left, top = r.randint(0, 2000), r.choice([0, 10, 33.5, 1200])
+                    if r.random() < 0.85:
+                        # the entry the editor keeps for this node (type and config follow from the node)
+                        ent = editor_ui(nd, left, top)
+                        self.tick("ui.entry." + ui_entry_class(ent))
+                        if dots:
+                            self.tick("ui.entry.plain_split." + dots)
+                    else:
+                        # an entry that is NOT the editor's (older exports, hand-written files): position only matters
+                        ent = {"position": {"left": left, "top": top}, "type": "execute_actions"}
+                        if r.random() < 0.3:
+                            ent["config"] = {"cases": {}}
+                        self.tick("ui.entry.foreign")
                     if r.random() < 0.3:
-                        ent["config"] = {"cases": {}}
+                        ent = dict(reversed(list(ent.items())))
                     ui[u] = ent
+                else:
+                    self.tick("ui.entry.none(node without position)")
+                    if dots:
+                        self.tick("ui.no_entry.plain_split." + dots)
             f["_ui"] = {"nodes": ui}
             if r.random() < 0.3:
                 f["_ui"]["stickies"] = {}
@@ -462,6 +513,102 @@ class Gen:
         return d
 
 
+# -- `_ui.nodes[uuid]`: what the editor keeps about a node besides its position.  The entry is a
+#    function of the node (this is the generator's own statement of the export format, written
+#    from the format's description, not from the code under test):
+#      no router                         execute_actions                (no config)
+#      random router                     split_by_random                config null
+#      router behind enter_flow/call_webhook/transfer_airtime
+#                                        split_by_subflow/_webhook/_airtime   config {}
+#      switch router that waits          wait_for_response              config {cases: {}}
+#      operand @contact.groups           split_by_groups                config {cases: {}}
+#      operand urn scheme                split_by_scheme                config {cases: {}}
+#      operand path of a urn scheme      split_by_contact_field         operand {id: scheme, type: scheme, name: Scheme}
+#      operand @contact.P / @fields.P    split_by_contact_field         operand {id: P, type: field|property, name: P|Title}
+#      operand @results.P                split_by_run_result            operand {id: P, type: result, name: P}
+#      anything else                     split_by_expression            config {cases: {}}
+#    P is the WHOLE path after the namespace ("quiz.category", "urn.path"), not its first segment.
+
+UI_ENTRY_CLASSES = ["execute_actions", "split_by_random", "split_by_subflow", "split_by_webhook", "split_by_airtime", "wait_for_response",
+                    "split_by_groups", "split_by_scheme", "split_by_contact_field.scheme", "split_by_contact_field.field",
+                    "split_by_contact_field.property", "split_by_run_result.result", "split_by_expression"]
+_URN_PATH = ('@(default(urn_parts(urns.', ').path, ""))')
+
+
+def _operand_path(op, ns):
+    head = "@" + ns + "."
+    return op[len(head):] if op.startswith(head) and len(op) > len(head) else None
+
+
+def editor_ui(node, left, top):
+    ent = {"position": {"left": left, "top": top}}
+    rt = node.get("router")
+    if rt is None:
+        ent["type"] = "execute_actions"
+        return ent
+    if rt.get("type") == "random":
+        ent["type"], ent["config"] = "split_by_random", None
+        return ent
+    acts = node.get("actions") or []
+    if acts:
+        ent["type"] = {"enter_flow": "split_by_subflow", "call_webhook": "split_by_webhook", "transfer_airtime": "split_by_airtime"}[acts[0]["type"]]
+        ent["config"] = {}
+        return ent
+    op = rt["operand"]
+    config = {"cases": {}}
+    if "wait" in rt:
+        typ = "wait_for_response"
+    elif op == "@contact.groups":
+        typ = "split_by_groups"
+    elif op == "@(urn_parts(contact.urn).scheme)":
+        typ = "split_by_scheme"
+    elif op.startswith(_URN_PATH[0]) and op.endswith(_URN_PATH[1]) and op[len(_URN_PATH[0]):-len(_URN_PATH[1])] in URN_SCHEMES:
+        scheme = op[len(_URN_PATH[0]):-len(_URN_PATH[1])]
+        typ = "split_by_contact_field"
+        config["operand"] = {"id": scheme, "type": "scheme", "name": scheme[:1].upper() + scheme[1:]}
+    elif _operand_path(op, "contact") is not None:
+        path = _operand_path(op, "contact")
+        typ = "split_by_contact_field"
+        if path in CONTACT_PROPERTIES_UI:
+            config["operand"] = {"id": path, "type": "property", "name": CONTACT_PROPERTIES_UI[path]}
+        else:
+            config["operand"] = {"id": path, "type": "field", "name": path}
+    elif _operand_path(op, "fields") is not None:
+        path = _operand_path(op, "fields")
+        typ = "split_by_contact_field"
+        config["operand"] = {"id": path, "type": "field", "name": path}
+    elif _operand_path(op, "results") is not None:
+        path = _operand_path(op, "results")
+        typ = "split_by_run_result"
+        config["operand"] = {"id": path, "type": "result", "name": path}
+    else:
+        typ = "split_by_expression"
+    ent["type"], ent["config"] = typ, config
+    return ent
+
+
+def ui_entry_class(ent):
+    t = ent["type"]
+    o = (ent.get("config") or {}).get("operand")
+    return t + ("." + o["type"] if o else "")
+
+
+def _operand_class(node):
+    """for a plain switch node that does not wait: namespace and number of path segments of its operand"""
+    rt = node.get("router")
+    if rt is None or rt.get("type") != "switch" or node.get("actions") or "wait" in rt:
+        return None
+    op = rt["operand"]
+    for ns in OPERAND_NAMESPACES:
+        if op == "@" + ns:
+            return ns + ".segments=0"
+        p = _operand_path(op, ns)
+        if p is not None:
+            k = p.count(".") + 1
+            return "%s.segments=%s" % (ns, k if k < 2 else "2+")
+    return "other_operand"
+
+
 def alias_names(name):
     """older names of a renamed object: distinct from every current name of the generator's
     pools and from the aliases of every other object (prefix / suffix / case / whitespace)"""
@@ -483,7 +630,10 @@ def generate(seed, avoid=frozenset("abcd"), **kw):
 #       router.result_name, trigger.match_type (null, ""); trigger.exclude_groups ([]),
 #     (DESIGN §5 lists the first eight; result_name and match_type are the two further
 #      "optional labels" of the schema the code omits when empty)
-#   * reduces `_ui` to {node uuid: (left, top)},
+#   * reduces `_ui` to {node uuid: (left, top)} and {node uuid: the rest of the entry (type, config, …)};
+#     the rest is compared field for field when the input entry is the editor's entry for that node
+#     (`approx_diff` drops it on both sides otherwise: for an entry the editor would not have
+#     written only the position can be asked back),
 #   * brings a trigger to the two-keyword-forms shape the statement prescribes
 #     (keywords := [keyword] for legacy triggers; keyword := first keyword) and fills the
 #     default match type "F" of a keyword trigger that has none.
@@ -550,12 +700,47 @@ def norm_flow(f):
         nodes.append(norm_node(n))
     f["nodes"] = nodes
     ui = f.pop("_ui", None)
-    pos = {}
+    pos, rest = {}, {}
     if isinstance(ui, dict):
         for u, ent in (ui.get("nodes") or {}).items():
             pos[u] = [ent["position"]["left"], ent["position"]["top"]]
+            rest[u] = {k: v for k, v in ent.items() if k != "position"}
     f["_ui_positions"] = pos
+    f["_ui_entries"] = rest
     return f
+
+
+def editor_entries(d):
+    """{(flow index, node uuid)} of the `_ui.nodes` entries of d that are exactly the editor's entry
+    for their node (those come back field for field), and the number of the other entries"""
+    full, other = set(), 0
+    for fi, f in enumerate(d.get("flows", [])):
+        ui = f.get("_ui")
+        if not isinstance(ui, dict):
+            continue
+        by_id = {n.get("uuid"): n for n in f.get("nodes", [])}
+        for u, ent in (ui.get("nodes") or {}).items():
+            try:
+                ok = u in by_id and strict_eq(ent, editor_ui(by_id[u], ent["position"]["left"], ent["position"]["top"]))
+            except Exception:  # noqa: BLE001  (a node outside the schema: no editor entry to compare with)
+                ok = False
+            if ok:
+                full.add((fi, u))
+            else:
+                other += 1
+    return full, other
+
+
+def approx_diff(inp, out):
+    """paths where norm(inp) and norm(out) differ = where out is NOT ≈ inp"""
+    ni, no = norm(inp), norm(out)
+    full, _ = editor_entries(inp)
+    for fi, (fa, fb) in enumerate(zip(ni["flows"], no["flows"])):
+        for u in list(fa["_ui_entries"]):
+            if (fi, u) not in full:
+                fa["_ui_entries"].pop(u, None)
+                fb["_ui_entries"].pop(u, None)
+    return diff_paths(ni, no)
 
 
 def norm_trigger(t):
